@@ -2,7 +2,7 @@
 Both return modes are run on the same tape; Lean's `summarySpec`/`statusAt`/`histWFg`/`collapse` are evaluated on the
 implementation's own node histories and compared with summary(), t/S/I/R(), the arrays, node_status/get_statuses."""
 from fractions import Fraction as F
-import common, allsims, predchecks
+import common, allsims, predchecks, inithist
 from predchecks import strip
 from allsims import SIR, KIND, fl
 from sims import arr, iarr
@@ -22,6 +22,7 @@ def legal_moves(c):
 
 def run(ctx):
     drv = common.LeanDriver()
+    inithist.hist_stream(ctx, drv, ctx.scale(150, 1500))
     per = ctx.scale(100, 500)
     reqs, metas = [], []
     for sim in SIMS:
